@@ -292,9 +292,12 @@ def run(ctx):
         # ---- S-HASHSTALE: tables read by the hash are pruned by the removal operations
         with res.guard(f"S-HASHSTALE of {d}"):
             pruned = set()
+            open_world = False  # a removal method hands its tables to other functions (`discard_key(edge_id, self._weights, ...)`)
             for m in ("remove_edge", "remove_node"):
                 if m in ctx.methods(cls):
-                    for o in ctx.view(f"{cls}.{m}").ops(with_calls=True):
+                    mv_ = ctx.view(f"{cls}.{m}")
+                    open_world = open_world or mv_._escapes()
+                    for o in mv_.ops(with_calls=True):
                         if o.op in ("del", "remove", "clear"):
                             pruned.add(o.table)
             scalars = {"_weighted", "_hypergraph_metadata", "_next_edge_id"}
@@ -303,6 +306,9 @@ def run(ctx):
                 read |= {o.table for o in uv.ops(with_calls=True) if o.op in ("read", "iter", "member")}
                 read |= {tab for _, tab, _, _ in uv.mentions()}
             for t in sorted(read - scalars):
+                if t not in pruned and open_world:
+                    res.unknown("S-HASHSTALE", f, f"self.{t}", "pruned", f"no pruning of {t} is visible in remove_edge / remove_node, which hand their tables to other functions: what those do to {t} was not followed", loc(v.fi, v.fi.node))
+                    continue
                 res.check(t in pruned, "S-HASHSTALE", f, f"self.{t}", "pruned", f"the hash reads {t}, which remove_edge / remove_node never prune: content reached through an insert-then-remove detour hashes differently", loc(v.fi, v.fi.node))
             if "clear" in ctx.methods(cls):
                 cleared = {o.table for o in ctx.view(f"{cls}.clear").ops(with_calls=True) if o.op in ("clear", "setattr")}
